@@ -82,8 +82,10 @@ func init() {
 				Old: "\t\terr = g.Writer.WriteNext(id, data)\n", New: "\t\terr = g.Writer.WriteComplete(id)\n"},
 			{Name: "graphql-ws Emit drops the error event", File: c19WsGo, Rule: "C19-R2", Key: "GraphQLWSWriteEventHandler.Emit/covers-engine-events",
 				Old: "\tcase subscription.EventTypeOnError:\n\t\tmessageType = GraphQLWSMessageTypeError\n", New: ""},
-			{Name: "transport-ws writer writes without its mutex", File: c19TwGo, Rule: "C19-R3", Key: "GraphQLTransportWSMessageWriter.write",
-				Old: "\tg.mu.Lock()\n\tdefer g.mu.Unlock()\n\treturn g.Client.WriteBytesToClient(jsonData)", New: "\treturn g.Client.WriteBytesToClient(jsonData)"},
+			// (with the client-level write mutex of fix 965cf30 a writer that drops its own mutex is no longer a
+			// violation: frames stay serialised; the R3/R7 mutants therefore remove the client's mutex)
+			{Name: "client writes text frames without its write mutex", File: "execution/subscription/websocket/client.go", Rule: "C19-R7", Key: "close-frame-holds-writer-mutex",
+				Old: "\tc.writeMu.Lock()\n\terr := wsutil.WriteServerMessage(c.clientConn, ws.OpText, message)\n\tc.writeMu.Unlock()\n", New: "\terr := wsutil.WriteServerMessage(c.clientConn, ws.OpText, message)\n"},
 			{Name: "Cancel touches the id table without the lock", File: c19ContextGo, Rule: "C19-R4", Key: "subscriptionCancellations.Cancel/write",
 				Old: "func (sc *subscriptionCancellations) Cancel(id string) (ok bool) {\n\tsc.mu.Lock()\n\tdefer sc.mu.Unlock()\n", New: "func (sc *subscriptionCancellations) Cancel(id string) (ok bool) {\n"},
 			{Name: "AddWithParent stores under the read lock", File: c19ContextGo, Rule: "C19-R4", Key: "subscriptionCancellations.AddWithParent/write",
@@ -105,8 +107,8 @@ func init() {
 				Old: "\t\tg.HandleWriteEvent(GraphQLWSMessageTypeData, id, data, err)\n\t\tg.HandleWriteEvent(GraphQLWSMessageTypeComplete, id, data, err)\n", New: "\t\tg.HandleWriteEvent(GraphQLWSMessageTypeComplete, id, data, err)\n\t\tg.HandleWriteEvent(GraphQLWSMessageTypeData, id, data, err)\n"},
 			{Name: "finished query keeps its id registered", File: c19EngineGo, Rule: "C19-R6", Key: "releases-id",
 				Old: "\tdefer func() {\n\t\te.subCancellations.Cancel(id)\n\t\terr := e.executorPool.Put(executor)", New: "\tdefer func() {\n\t\terr := e.executorPool.Put(executor)"},
-			{Name: "graphql-ws closes on unknown messages without the writer mutex", File: c19WsGo, Rule: "C19-R7", Key: "ProtocolGraphQLWSHandler.Handle",
-				Old: "\tdefault:\n\t\tp.writeEventHandler.HandleWriteEvent(GraphQLWSMessageTypeConnectionError, message.Id, nil,", New: "\tdefault:\n\t\t_ = p.writeEventHandler.Writer.Client.DisconnectWithReason(CompiledCloseReasonNormal)\n\t\tp.writeEventHandler.HandleWriteEvent(GraphQLWSMessageTypeConnectionError, message.Id, nil,"},
+			{Name: "close frame written without the client's write mutex", File: "execution/subscription/websocket/client.go", Rule: "C19-R7", Key: "close-frame-holds-writer-mutex",
+				Old: "func (c *Client) writeFrame(frame ws.Frame) error {\n\tc.writeMu.Lock()\n\tdefer c.writeMu.Unlock()\n", New: "func (c *Client) writeFrame(frame ws.Frame) error {\n"},
 		},
 	}
 }
